@@ -10,6 +10,7 @@ use crate::util::{Params, Rng64, Stats, Violation, mix};
 use crate::wl::{self, BindAnswer, BindPlan, EpCfg, Scenario};
 use serde_json::json;
 use std::sync::Arc;
+use std::time::Duration;
 
 pub const SPEC: FamilySpec = FamilySpec {
     property: "C15",
@@ -171,6 +172,111 @@ fn reuse_case(st: &mut Stats, seed: u64) {
     }
 }
 
+/// (e) a request whose future the application drops before the answer (a time-out around `request_bind`, a cancelled task):
+/// its answer is still on its way. A request issued afterwards - whatever id the generator offers it, the abandoned one
+/// included - must resolve with the decision taken for that very request, never with the late answer to the abandoned one.
+fn cancel_case(st: &mut Stats, seed: u64) {
+    st.evaluations += 1;
+    st.engine("SIM", 1);
+    let mut rng = Rng64::new(mix(seed, 0xCA));
+    let first_answer = *rng.pick(&[BindAnswer::Accept, BindAnswer::Reject, BindAnswer::Drop]);
+    // the opposite decision for the second request, so that a misdirected answer cannot go unnoticed
+    let second_answer = if first_answer == BindAnswer::Accept { BindAnswer::Reject } else { BindAnswer::Accept };
+    let cancel_after = rng.range(1, 6);
+    let first_delay = cancel_after + rng.range(4, 15);
+    let second_delay = first_delay + rng.range(10, 30);
+    let gap_quiescent = rng.chance(1, 3);
+    let second_is_stream = rng.chance(1, 5);
+    let cfg = [EpCfg { bind_buf: 0, ..EpCfg::default() }, EpCfg { bind_buf: 4, ..EpCfg::default() }];
+    let x: u32 = rng.next() as u32 | 1;
+    let y: u32 = (rng.next() as u32 | 1) ^ 0x10;
+    let plans = vec![
+        BindPlan { id: 1, from: 0, datagram_type: rng.chance(1, 2), host_len: 5, port: 201, answer: first_answer, answer_delay: first_delay, call_delay: 0 },
+        BindPlan { id: 2, from: 0, datagram_type: rng.chance(1, 2), host_len: 7, port: 202, answer: second_answer, answer_delay: second_delay, call_delay: 0 },
+    ];
+    let sh = sim::Shared::new(mix(seed, 7), rng.below(4) as u8);
+    let plans2 = plans.clone();
+    let cfg2 = cfg.clone();
+    let end = sim::run(&sh, move |sh| async move {
+        let ([e0, e1], _net) = wl::connect(&sh, [&cfg2[0], &cfg2[1]], [0, 0], [None, None], seed, true);
+        let all = Arc::new(plans2.clone());
+        let resp = sim::spawn(&sh, 8501, wl::bind_responder(sh.clone(), e1.mux.clone(), 1, seed, all));
+        let acc_mux = e1.mux.clone();
+        let acc = sim::spawn(&sh, 2001, async move {
+            while let Ok(s) = acc_mux.accept_stream_channel().await {
+                drop(s);
+            }
+        });
+        let (sh3, mux3, rng3, plans3) = (sh.clone(), e0.mux.clone(), e0.rng.clone(), plans2.clone());
+        let requester = sim::spawn(&sh, 8601, async move {
+            rng3.push(&[x]);
+            // request #1 runs as its own task and is abandoned after its Bind frame has left
+            let first = sim::spawn(&sh3, 8602, wl::bind_requester(sh3.clone(), mux3.clone(), 0, seed, plans3[0].clone()));
+            tokio::time::sleep(Duration::from_millis(cancel_after)).await;
+            sh3.api(0, 0, Api::Note("bind-request-1-abandoned".into()));
+            first.abort();
+            first.await.ok();
+            if gap_quiescent {
+                sim::quiesce().await;
+            }
+            // the generator offers the abandoned id first, then a fresh one
+            rng3.push(&[x, y]);
+            if second_is_stream {
+                sh3.api(0, 77, Api::OpenCall);
+                let r = mux3.new_stream_channel(b"s77.", 5).await;
+                Some(r.as_ref().map(|s| s.verif_flow_id()).map_err(wl::err_name))
+            } else {
+                wl::bind_requester(sh3.clone(), mux3.clone(), 0, seed, plans3[1].clone()).await;
+                None
+            }
+        });
+        let stream_ok = requester.await.ok().flatten().flatten();
+        // let the late answer to the abandoned request arrive as well
+        tokio::time::sleep(Duration::from_millis(80)).await;
+        sim::quiesce().await;
+        let leftover = e0.mux.verif_flow_ids();
+        sh.api(0, 0, Api::Teardown);
+        resp.abort();
+        acc.abort();
+        resp.await.ok();
+        acc.await.ok();
+        let (m0, t0, m1, t1) = (e0.mux, e0.task, e1.mux, e1.task);
+        sh.api(0, 0, Api::MuxDrop);
+        drop(m0);
+        t0.await.ok();
+        drop(m1);
+        t1.await.ok();
+        (stream_ok, leftover)
+    });
+    let log = sh.take_log();
+    let metas: Vec<BindMeta> = plans.iter().map(|b| BindMeta { id: b.id, from: 0, port: b.port, answer: ans_name(b.answer), responder_enabled: true }).collect();
+    let meta = Meta { sim: true, binds: metas, dgram_cap: [16, 16], ..Meta::default() };
+    let an = monitors::analyse(&log, SPEC.fams, &meta);
+    let how = if gap_quiescent { "cancel-then-quiescent" } else { "cancel-then-immediate" };
+    let replay = |at: usize| json!({"kind": "c15-cancel", "run_seed": seed, "how": how, "first_answer": ans_name(first_answer), "second": if second_is_stream { "stream" } else { ans_name(second_answer) },
+        "cancel_after_ms": cancel_after, "first_answer_after_ms": first_delay, "trace": sim::render(&log[..at.min(log.len())], 70)});
+    match end {
+        sim::RunEnd::Finished((stream_ok, leftover)) => {
+            st.target("abandoned_bind_request_runs", 1);
+            if let Some(Err(e)) = &stream_ok {
+                st.violation(Violation { signature: format!("open-after-abandoned-bind-failed|{e}|{how}"), detail: format!("bind request #1 was abandoned by its caller; a stream request issued afterwards (the generator offered the abandoned id {x:x}, then {y:x}) failed with {e}"), replay: replay(log.len()) });
+            }
+            if !leftover.is_empty() {
+                st.violation(Violation { signature: format!("bind-id-not-released|{how}"), detail: format!("80 ms after the peer had answered both requests the requester's flow table still holds {leftover:x?}"), replay: replay(log.len()) });
+            }
+            st.nontrivial(mix(sh.hash(), u64::from(x)));
+        }
+        sim::RunEnd::Stalled => st.violation(Violation { signature: format!("stall|{how}"), detail: "a request issued after an abandoned bind request never resolved although the peer answered it".into(), replay: replay(log.len()) }),
+        sim::RunEnd::Panicked(m) => st.inconclusive.push(format!("harness panic in c15 cancel: {m}")),
+    }
+    for f in an.findings {
+        st.violation(Violation { signature: format!("{}|{how}", f.sig), detail: f.detail, replay: replay(f.at + 1) });
+    }
+    for (k, v) in &an.counters.c {
+        st.count(k, *v);
+    }
+}
+
 /// A peer that is not this crate picks its own flow ids (0 included: Bind ids are not kept in the flow table). Whatever the
 /// id, the request is answered exactly once: Finish when the application accepts, Reset when it rejects or just drops it.
 fn raw_bind_case(st: &mut Stats, seed: u64) {
@@ -194,7 +300,7 @@ fn raw_bind_case(st: &mut Stats, seed: u64) {
         let mut answers = Vec::new();
         for (id, decision, i) in &reqs2 {
             raw.send(&RefFrame::Bind { id: *id, btype: 1 + (*i as u8 % 2) * 2, port: 700 + *i as u16, host: format!("b{i}").into_bytes() }).await;
-            let seen = match tokio::time::timeout(std::time::Duration::from_millis(5), e0.mux.next_bind_request()).await {
+            let seen = match tokio::time::timeout(Duration::from_millis(5), e0.mux.next_bind_request()).await {
                 Ok(Ok(r)) => {
                     let ok = r.host() == format!("b{i}").as_bytes();
                     match decision {
@@ -330,6 +436,8 @@ pub fn run(p: &Params) -> (Stats, &'static str) {
             raw_bind_case(&mut st, seed);
         } else if i % 8 == 5 {
             after_end_case(&mut st, seed);
+        } else if i % 16 == 7 {
+            cancel_case(&mut st, seed);
         } else if i % 4 == 3 {
             reuse_case(&mut st, seed);
         } else {
